@@ -234,6 +234,16 @@ func mathCorpus(w *lib.Writer) {
 		mIn("random", 5, 5), mIn("random", -3, -1), mIn("random", 5, 3), mIn("random", 0), mIn("random", 1),
 		mIn("random", -(1 << 40), 1<<40), mIn("random", 1, 1, 7),
 		mIn("pow", 2, 10), mIn("atan2", 1, 2),
+		mIn("pow", math.Copysign(0, -1), 0.5), mIn("pow", math.Inf(-1), 0.5), // seeded C15-1: pow is not sqrt at -0 / -Inf
+		mIn("pow", math.Copysign(0, -1), -0.5), mIn("pow", math.Inf(-1), -0.5), mIn("pow", -8, 1.0/3), mIn("pow", 0, -1),
+		mIn("pow", math.Copysign(0, -1), -1), mIn("pow", math.Copysign(0, -1), 3), mIn("pow", -1, math.Inf(1)), mIn("pow", math.NaN(), 0),
+		mIn("pow", 1, math.NaN()), mIn("atan2", math.Copysign(0, -1), -1), mIn("atan2", 0, math.Copysign(0, -1)),
+		mIn("atan2", math.Copysign(0, -1), math.Copysign(0, -1)), mIn("atan2", math.Inf(1), math.Inf(-1)),
+		mIn("exp", math.Inf(-1)), mIn("log", 0), mIn("log", math.Copysign(0, -1)), mIn("log", -1), mIn("log10", 0),
+		mIn("sqrt", math.Copysign(0, -1)), mIn("sqrt", math.Inf(-1)), mIn("sqrt", -1), mIn("sin", math.Copysign(0, -1)),
+		mIn("tan", math.Copysign(0, -1)), mIn("asin", math.Copysign(0, -1)), mIn("atan", math.Copysign(0, -1)),
+		mIn("sinh", math.Copysign(0, -1)), mIn("tanh", math.Copysign(0, -1)), mIn("cos", math.Inf(1)),
+		mIn("fmod", math.Copysign(0, -1), 1), mIn("fmod", math.Inf(1), 1), mIn("fmod", 1, math.Inf(-1)), mIn("fmod", math.Copysign(0, -1), math.Inf(1)),
 	} {
 		runMath(w, c)
 	}
@@ -316,11 +326,17 @@ func genMath(w *lib.Writer, r *lib.Rand, tier string) {
 	for k := 0; k < 20; k++ {
 		runMath(w, mathIn{Fn: "math.random", Rep: k})
 	}
-	// thin wrappers against Go's math: argument order and arity
-	for fn := range goOnly1 {
-		_ = fn
-	}
+	// thin wrappers against Go's math, bit for bit (sign of zero, NaN-ness): every pool and grid value for
+	// the unary ones, the full grid x grid for the binary ones (special values as base AND exponent), then
+	// random arguments; argument order and arity
+	grid := mathGrid()
 	for _, fn := range lib.SortedKeys(goOnly1) {
+		for _, x := range pool {
+			runMath(w, mIn(fn, x))
+		}
+		for _, x := range grid {
+			runMath(w, mIn(fn, x))
+		}
 		for k := 0; k < 40*reps; k++ {
 			runMath(w, mIn(fn, pick()))
 		}
@@ -328,6 +344,11 @@ func genMath(w *lib.Writer, r *lib.Rand, tier string) {
 		runMath(w, mIn(fn, pick(), pick()))
 	}
 	for _, fn := range lib.SortedKeys(goOnly2) {
+		for _, x := range grid {
+			for _, y := range grid {
+				runMath(w, mIn(fn, x, y))
+			}
+		}
 		for k := 0; k < 150*reps; k++ {
 			x, y := pick(), pick()
 			if r.Chance(50) {
@@ -338,4 +359,33 @@ func genMath(w *lib.Writer, r *lib.Rand, tier string) {
 		runMath(w, mIn(fn, 2))
 		runMath(w, mIn(fn))
 	}
+	// the same grid for the binary functions that go through the model (quick: the core of the grid)
+	g2 := grid
+	if tier != "thorough" {
+		g2 = grid[:mathGridCore]
+	}
+	for _, x := range g2 {
+		for _, y := range g2 {
+			runMath(w, mIn("fmod", x, y))
+		}
+		for _, e := range exps {
+			runMath(w, mIn("ldexp", x, e))
+		}
+		for _, fn := range one {
+			runMath(w, mIn(fn, x))
+		}
+	}
+}
+
+// mathGrid: special values used as every argument of the binary functions (base and exponent, y and x,
+// dividend and divisor). The first mathGridCore entries are the core used for the model-side functions in
+// the quick tier.
+const mathGridCore = 19
+
+func mathGrid() []float64 {
+	nz := math.Copysign(0, -1)
+	return []float64{0, nz, 1, -1, math.Inf(1), math.Inf(-1), math.NaN(), 0.5, -0.5, 2, -2, 3, -3,
+		math.MaxFloat64, -math.MaxFloat64, 5e-324, -5e-324, 1.5, 1 << 53,
+		4, -4, 1.0 / 3, 1e300, -1e300, 2.2250738585072014e-308, 1<<53 - 1, 1<<53 + 2, -(1<<53 - 1), 1023, 1024, -1074,
+		1e15 + 1, 0.25, 10, -0.75, 1e-300, 1 << 62, 7, -7, 1e22}
 }
